@@ -37,21 +37,25 @@ let oem = Name.oem_decode_lossy
 let name_of_hex (h : string) : BinNums.coq_N list = Str.utf8_decode (bytes_of_hex h)
 let opt_s = M_c02.opt_s
 
-let keys (im : Image.image) : int list = Stdlib.List.map (fun (k, _) -> int_of_pos k - 1) (FormatImage.img_bindings im)
-
 (* whole-image comparison: every offset one of the maps holds, and the fill byte; [mask] = offset whose bit 0 is ignored *)
 let compare_images (mask : int) : string =
-  let tbl = Hashtbl.create 65536 in
-  Stdlib.List.iter (fun k -> Hashtbl.replace tbl k ()) (keys !mim);
-  Stdlib.List.iter (fun k -> Hashtbl.replace tbl k ()) (keys !dim);
+  let bind im = Stdlib.List.map (fun (k, v) -> (int_of_pos k - 1, int_of_n v)) (FormatImage.img_bindings im) in
+  let mb = bind !mim and db = bind !dim in
+  let mfill = int_of_n (!mim).Image.img_fill and dfill = int_of_n (!dim).Image.img_fill in
+  let dt = Hashtbl.create (2 * Stdlib.List.length db + 16) in
+  Stdlib.List.iter (fun (k, v) -> Hashtbl.replace dt k v) db;
   let bad = ref None in
   let n = ref 0 in
-  Hashtbl.iter (fun k () ->
+  let note k a b =
+    let a, b = if k = mask then (a lor 1, b lor 1) else (a, b) in
+    if a <> b then (match !bad with Some (o, _, _) when o <= k -> () | _ -> bad := Some (k, a, b)) in
+  Stdlib.List.iter (fun (k, a) ->
       incr n;
-      let a = int_of_n (Image.img_get !mim (n_of_int k)) and b = int_of_n (Image.img_get !dim (n_of_int k)) in
-      let a, b = if k = mask then (a lor 1, b lor 1) else (a, b) in
-      if a <> b then (match !bad with Some (o, _, _) when o <= k -> () | _ -> bad := Some (k, a, b))) tbl;
-  if (!mim).Image.img_fill <> (!dim).Image.img_fill then "DIFF fill byte"
+      (match Hashtbl.find_opt dt k with
+       | Some b -> note k a b; Hashtbl.remove dt k
+       | None -> note k a dfill)) mb;
+  Hashtbl.iter (fun k b -> incr n; note k mfill b) dt;
+  if mfill <> dfill then "DIFF fill byte"
   else match !bad with
     | Some (o, a, b) -> Printf.sprintf "DIFF at %d: model %d device %d" o a b
     | None -> Printf.sprintf "same %d" !n
